@@ -78,6 +78,8 @@ AdmtCases == {[kind |-> "admt", g |-> g, psi |-> psi, p |-> f, a |-> a, ix |-> i
 \* the derivative operators are homogeneous in the length unit: on the same grid measured in units of 10^e the first-derivative
 \* rows are divided by 10^e and the second-derivative rows by 10^2e (compared by the harness for these exponents)
 UnitExps == <<0, -3, 3>>
+\* only the direction of grad psi enters D: the ADMT operator is unchanged when the flux map is multiplied by 10^e
+FluxScaleExps == <<0, -8, 8>>
 VARIABLE c
 Init == c \in DerivCases \cup AdmtCases
 Next == UNCHANGED c
